@@ -18,7 +18,7 @@
    channel: which methods it has, which request buffers parse, whether it completes a request inside
    CallMethod or later) are arbitrary functions. *)
 From OlaBase Require Import Bytes.
-From C09 Require Import Gen GenTxt Model Final.
+From C09 Require Import Gen GenTxt Model MultiProofs Final.
 Local Open Scope N_scope.
 
 (* Side obligation: the constants of /repo are the property's numbers (1 MB limit, version 1, 4-byte
@@ -327,6 +327,24 @@ Theorem c09_complete_reply :
 Proof. exact complete_reply. Qed.
 Print Assumptions c09_complete_reply.
 
+(* Several channels in one process.  The product of any number of channel machines (mrun: each step
+   belongs to one channel, in any interleaving: partial reads of one connection with whole or partial
+   reads, calls and completions of the others in between) projects to each channel's own run: channel i
+   ends in the state, and produces the trace, of [run] on its own operations alone.  All theorems above
+   therefore hold per channel in any process with many connections; the implementation must not share
+   receive state (buffer, sizes, header bytes), call tables or sequence numbers between channels. *)
+Theorem c09_channels_independent :
+  forall (decode : list N -> option msg) (method_kind : list N -> N) (req_ok : list N -> bool)
+         (service : list N -> list N -> option sres)
+         (ops : list (nat * op)) (s s' : list (frame * rpc)) (tr : list (nat * event))
+         (i : nat) (f : frame) (r : rpc),
+  mrun decode method_kind req_ok service s ops = (s', tr) -> nth_error s i = Some (f, r) ->
+  exists f' r' tri,
+    run decode method_kind req_ok service f r (proj i ops) = (f', r', tri) /\
+    nth_error s' i = Some (f', r') /\ proj i tr = tri.
+Proof. exact mrun_proj. Qed.
+Print Assumptions c09_channels_independent.
+
 (* The hypotheses are satisfiable and the statements are not vacuous: a concrete history.
    decode: a body is a message of type RESPONSE whose id is its first byte.  Two calls (ids 0, 1), then
    the reply to id 1 and the reply to id 0 arrive split over four reads, then a duplicate of reply 1. *)
@@ -404,3 +422,12 @@ Proof.
   vm_compute in E. inversion E; subst.
   split; [reflexivity|]. split; [reflexivity|]. split; [reflexivity|]. split; [reflexivity|]. exact HW.
 Qed.
+
+(* two channels: a frame of channel 0 split over two reads with a whole frame of channel 1 in between *)
+Example c09_example_multi :
+  let '(s, tr) := mrun ex_decode (fun _ => 0) (fun _ => true) (fun _ _ => None)
+                       [(init_frame, init_rpc); (init_frame, init_rpc)]
+                       [(0%nat, OpChunk [2; 0; 0; 16; 9] true); (1%nat, OpChunk [2; 0; 0; 16; 5; 6] true);
+                        (0%nat, OpChunk [7] true)] in
+  dispatched (proj 0%nat tr) = [mkMsg 2 9 [] [9; 7]] /\ dispatched (proj 1%nat tr) = [mkMsg 2 5 [] [5; 6]].
+Proof. vm_compute. split; reflexivity. Qed.
